@@ -21,3 +21,24 @@ Theorem C07_gz_truncated : forall h body payload k, ghdr_ok h -> body_for body p
   is_prefix (g_payload r) payload /\ (g_err r = CUnexpectedEOF \/ (k = 0%nat /\ g_err r = CEOF)).
 Proof. exact (gz_payload_prefix inflate_mono inflate_never_fuel). Qed.
 Print Assumptions C07_gz_truncated.
+
+(* ---- on the faithful model of the gzip/zlib readers (RModel/GzEngine.v): io.EOF implies that every
+   member's CRC-32 and ISIZE match what was handed out (Containers.gz_stream); a proper prefix of a
+   valid member never ends in io.EOF, in either Multistream mode, and what it hands out is a prefix of
+   the payload; after any error every further Read returns that error and no bytes. *)
+From Verif Require Import Engine EngineCorollaries GzEngine GzEngineSpec GzEngineBuf GzEngineTop.
+Theorem C07_gz_reader_eof_checked : gz_eof_checked_eng_statement.
+Proof. exact gz_eof_checked_eng. Qed.
+Print Assumptions C07_gz_reader_eof_checked.
+Theorem C07_gz_reader_truncated : gz_truncated_eng_statement.
+Proof. exact gz_truncated_eng. Qed.
+Print Assumptions C07_gz_reader_truncated.
+Theorem C07_gz_reader_truncated_single : gz_truncated_eng_single_statement.
+Proof. exact gz_truncated_eng_single. Qed.
+Print Assumptions C07_gz_reader_truncated_single.
+Theorem C07_gz_reader_sticky : gz_sticky_statement.
+Proof. exact gz_sticky. Qed.
+Print Assumptions C07_gz_reader_sticky.
+Theorem C07_zl_reader_sticky : zl_sticky_statement.
+Proof. exact zl_sticky. Qed.
+Print Assumptions C07_zl_reader_sticky.
